@@ -39,10 +39,17 @@ impl Ls {
         if writeln!(self.stdin, "{line}").is_err() || self.stdin.flush().is_err() {
             return Err(self.died());
         }
-        let mut reply = String::new();
-        match self.stdout.read_line(&mut reply) {
-            Ok(0) | Err(_) => Err(self.died()),
-            Ok(_) => serde_json::from_str(&reply).map_err(|e| format!("bad reply {reply:?}: {e}")),
+        loop {
+            let mut reply = String::new();
+            match self.stdout.read_line(&mut reply) {
+                Ok(0) | Err(_) => return Err(self.died()),
+                Ok(_) => {
+                    // anything without the marker is output of parol itself
+                    if let Some(r) = reply.strip_prefix("@@VERIF ") {
+                        return serde_json::from_str(r).map_err(|e| format!("bad reply {r:?}: {e}"));
+                    }
+                }
+            }
         }
     }
 
